@@ -41,7 +41,7 @@ type input struct {
 
 var actions = []string{v2.ActionCreateTransaction, v2.ActionAddMetadata, v2.ActionRevertTransaction, v2.ActionDeleteMetadata}
 var unknowns = []string{"FROBNICATE", "", "create_transaction", "CREATE_TRANSACTION ", "DELETE"}
-var outs = []string{"succ", "insufficient", "command", "notfound", "other"}
+var outs = []string{"succ", "insufficient", "command", "notfound", "other", "same", "same"}
 
 func coqAct(a string) string {
 	switch a {
@@ -57,7 +57,7 @@ func coqAct(a string) string {
 	return "AUnknown"
 }
 func coqOut(o string) string {
-	return map[string]string{"succ": "OSucc", "insufficient": "OInsufficient", "command": "OCommand", "notfound": "ONotFound", "other": "OOther"}[o]
+	return map[string]string{"succ": "OSucc", "insufficient": "OInsufficient", "command": "OCommand", "notfound": "ONotFound", "other": "OOther", "same": "OSame"}[o]
 }
 func coqCode(c string) string {
 	switch c {
@@ -195,6 +195,8 @@ func backendFor(in input) *fakeapi.Ledger {
 				return nil, errors.Wrap(command.VerifErrDeleteMetaTransactionNotFound(), msg)
 			}
 			return nil, errors.New(msg)
+		case "same":
+			return nil, errors.New("boom") // the same text for every element: nothing identifies the failing one
 		default:
 			return nil, errors.New(msg)
 		}
@@ -457,7 +459,7 @@ func genElem(g *vx.Rng) elem {
 		e.Data = "bad"
 	}
 	if g.Chance(1, 3) {
-		e.Out = outs[1+g.Intn(4)]
+		e.Out = outs[1+g.Intn(6)]
 	}
 	if g.Chance(1, 2) {
 		e.IK = fmt.Sprintf("k%d", 1+g.Intn(3))
@@ -491,7 +493,7 @@ func main() {
 	var classes []cls
 	for _, a := range append(append([]string{}, actions...), "FROBNICATE") {
 		for _, dk := range []string{"ok", "bad"} {
-			for _, o := range []string{"succ", "other"} {
+			for _, o := range []string{"succ", "other", "same"} {
 				if (a == "FROBNICATE" || dk == "bad") && o != "succ" {
 					continue
 				}
